@@ -24,7 +24,7 @@ MANIFEST = {
 LEAN_MODULES = ["CoapVerif.Props.C02", "CoapVerif.Props.C05", "CoapVerif.Props.C16", "CoapVerif.Props.C20", "CoapVerif.Props.C09"]
 # the no-overread / no-out-of-range theorems of the readers owned by other properties: C02's claim rests on them
 REQUIRED_ELSEWHERE = {
-    "Coap.C05": ["reader_no_oob", "oversize_closes"],
+    "Coap.C05": ["reader_no_oob", "oversize_closes", "ws_close_terminates"],
     "Coap.C16": ["no_overread"],
     "Coap.C20": ["match_no_overread", "wellknown_no_overread"],
     "Coap.C09": ["block_opt_bounds", "rblock_represents", "block2_hostile_no_unwritten_bytes", "block1_hostile_no_unwritten_bytes"],
